@@ -156,6 +156,16 @@ func TargetedReq(rng *rand.Rand, s *Spec, patternHost string, hostnameProb float
 	}
 	if len(s.Clients) > 0 && rng.Intn(4) > 0 {
 		cl := s.Clients[rng.Intn(len(s.Clients))]
+		if rng.Intn(2) == 0 {
+			// In a list that mixes address families, aim at an IPv6 entry.
+			for _, j := range rng.Perm(len(s.Clients)) {
+				if o := s.Clients[j]; o.IsNet && o.Prefix.Addr().Is6() {
+					cl = o
+
+					break
+				}
+			}
+		}
 		if cl.IsNet {
 			if rng.Intn(3) == 0 {
 				q.ClientIP = addrOutside(rng, cl.Prefix)
